@@ -137,6 +137,10 @@ def _convert_internal_expression_to_pddl(
         if comp:
             components.append(comp)
 
+        elif operator == "*":
+            # a factor that was rounded to zero turns the entire product to zero.
+            return None
+
     nested_expression = ""
     for component in reversed(components):
         if nested_expression:
